@@ -84,7 +84,10 @@ def cut_block(src, header_re, what):
 def cut_impl(src, impl_header):
     """impl_header e.g. 'Writer', 'Document', 'Write for CountingWrite<W>' (matched
     after optional generics)."""
-    pat = r'^impl(?:<[^>{]*>)?\s+' + re.escape(impl_header).replace(r'\ ', r'\s+') + r'\s*(?:where[^{]*)?\{'
+    if impl_header.startswith('re:'):
+        pat = impl_header[3:]
+    else:
+        pat = r'^impl(?:<[^>{]*>)?\s+' + re.escape(impl_header).replace(r'\ ', r'\s+') + r'\s*(?:where[^{]*)?\{'
     results = []
     for m in re.finditer(pat, src, re.M):
         i = m.end() - 1
